@@ -1491,27 +1491,43 @@ pub fn run_pair(ctx: &mut Ctx, case: &Value) {
 pub fn finish_pool(ctx: &mut Ctx) {
     use std::cmp::Ordering;
     let pool = std::mem::take(&mut ctx.pool);
-    let mut vals: Vec<GenericPurl<String>> =
+    let vals: Vec<GenericPurl<String>> =
         pool.iter().filter_map(|v| value_to_purl(from_cps(&v["type"]), v)).collect();
-    if vals.len() < 2 {
+    check_pool(ctx, vals);
+}
+
+/// Sort a pool with `Ord` (by insertion, so that an inconsistent `Ord` cannot make the sort itself misbehave) and
+/// require the result to be pairwise consistent; de-duplication by ordered set, hash set and string must agree.
+pub fn check_pool(ctx: &mut Ctx, pool: Vec<GenericPurl<String>>) {
+    use std::cmp::Ordering;
+    if pool.len() < 2 {
         return;
     }
-    vals.sort();
-    let mut ok = true;
-    for i in 0..vals.len() {
+    let mut vals: Vec<GenericPurl<String>> = Vec::with_capacity(pool.len());
+    for p in pool {
+        let mut i = vals.len();
+        while i > 0 && vals[i - 1].cmp(&p) == Ordering::Greater {
+            i -= 1;
+        }
+        vals.insert(i, p);
+    }
+    let mut bad: Option<(String, String)> = None;
+    'outer: for i in 0..vals.len() {
         for j in i + 1..vals.len() {
             if vals[i].cmp(&vals[j]) == Ordering::Greater {
-                ok = false;
+                bad = Some((vals[i].to_string(), vals[j].to_string()));
+                break 'outer;
             }
         }
     }
     ctx.case = json!({"k": "pool", "size": vals.len()});
-    ctx.check("C19", "sorted pool is pairwise consistent (transitivity)", "String", ok, &Value::Null, &Value::Null);
-    let set: std::collections::BTreeSet<_> = vals.iter().cloned().collect();
-    let hset: std::collections::HashSet<_> = vals.iter().cloned().collect();
+    ctx.check("C19", "sorted pool is pairwise consistent (transitivity)", "String", bad.is_none(), &Value::Null, &json!(bad));
     let strs: std::collections::HashSet<String> = vals.iter().map(|p| p.to_string()).collect();
-    ctx.check("C19", "de-duplication by BTreeSet, HashSet and string agree", "String",
-              set.len() == hset.len() && set.len() == strs.len(), &json!(strs.len()), &json!([set.len(), hset.len()]));
+    let hset: std::collections::HashSet<_> = vals.iter().cloned().collect();
+    // distinct neighbours after sorting = what an ordered set would keep
+    let distinct = 1 + vals.windows(2).filter(|w| w[0].cmp(&w[1]) != Ordering::Equal).count();
+    ctx.check("C19", "de-duplication by order, HashSet and string agree", "String",
+              distinct == hset.len() && distinct == strs.len(), &json!(strs.len()), &json!([distinct, hset.len()]));
 }
 
 /// C16: values that are not strings are refused.
